@@ -3,6 +3,7 @@ package sim
 import (
 	"encoding/json"
 	"fmt"
+	"os"
 	"testing"
 
 	"pgregory.net/rapid"
@@ -36,7 +37,7 @@ func EngineFindings(h *History) []Finding {
 		if rec.Panic != "" {
 			out = append(out, Finding{Sig: "panic", Msg: rec.Panic, Cycle: rec.Index})
 		}
-		if rec.Hung {
+		if rec.Hung && os.Getenv("VERIF_IGNORE_HANG") == "" { // the switch exists for diagnosing seeded changes only
 			out = append(out, Finding{Sig: "hang", Msg: "scheduling cycle did not finish - " + rec.HangKind, Cycle: rec.Index})
 		}
 	}
